@@ -3,8 +3,18 @@ from common import COMMON_ASSUME
 PROP = dict(
     module="HTTPRouter",
     mc=[
+        # main: every API of <=2 operations x base spellings x targets of <=3 segments
         dict(module="MCHTTPRouter", cfg=dict(quick="MCHTTPRouter_quick.cfg", thorough="MCHTTPRouter_thorough.cfg"),
              timeout=dict(quick=900, thorough=3000)),
+        # ops3: APIs of <=3 operations over 3 methods (sibling conflict and 405 at once)
+        dict(module="MCHTTPRouter", cfg=dict(quick="MCHTTPRouter_ops3_quick.cfg", thorough="MCHTTPRouter_ops3_thorough.cfg"),
+             timeout=dict(quick=600, thorough=1500)),
+        # wide: few APIs, exotic target segments (raw non-ASCII, '#', '*', ';=', %61, %2e%2e, %23, %25)
+        dict(module="MCHTTPRouter", cfg=dict(quick="MCHTTPRouter_wide_quick.cfg", thorough="MCHTTPRouter_wide_thorough.cfg"),
+             timeout=dict(quick=600, thorough=1500)),
+        # deep: targets of up to 5 segments (two placeholders under a base path)
+        dict(module="MCHTTPRouter", cfg=dict(quick="MCHTTPRouter_deep_quick.cfg", thorough="MCHTTPRouter_deep_thorough.cfg"),
+             timeout=dict(quick=600, thorough=1500)),
         dict(module="MCHTTPRouter", cfg="MCHTTPRouter_mutant_urlpath.cfg", expect_violation="PropertyHolds", timeout=300),
         dict(module="MCHTTPRouter", cfg="MCHTTPRouter_asbuilt_d1.cfg", expect_violation="PropertyHolds", timeout=300),
     ],
